@@ -236,7 +236,9 @@ fn same(kind: &str, exp: &Obs, got: &Obs) -> bool {
         exp.len == got.len && exp.failed == got.failed && exp.content == got.content && exp.null == got.null
             && exp.acclen == got.acclen && got.cap >= got.len
     } else {
+        // the two accessors answer for every kind of writer: NULL / 0 exactly when a growth has failed
         exp.len == got.len && exp.cap == got.cap && exp.failed == got.failed && exp.content == got.content
+            && exp.null == got.null && exp.acclen == got.acclen
     }
 }
 
